@@ -124,87 +124,112 @@ def run_pipeline(tier, seed, log=print):
         s = gen_random.make_multi(seed * 1000003 + 500000 + i)
         s["driver"] = "random-multipool"
         scheds.append(s)
-    # -- 3. execute ------------------------------------------------------------------------------------------
-    t1 = time.time()
-    out = common.execute_all(scheds)
-    log("executed %d schedules on the real pool in %.1fs" % (len(scheds), time.time() - t1))
-    good = []
-    for s, r in zip(scheds, out):
-        res["drivers"][s["driver"]] = res["drivers"].get(s["driver"], 0) + 1
-        if not r["ok"]:
-            res["harness_errors"].append({"sched": {"cfg": s["cfg"], "cmds": s["cmds"]}, "err": r["err"]})
-            continue
-        npools = len(s["cfg"]["pools"]) if "pools" in s["cfg"] else 1
-        if npools == 1:
-            good.append((s, r))
-        else:       # one trace per pool: each pool is judged on its own records (independence is part of C11)
-            for tr in common.split_pools(r["trace"], npools):
-                good.append((s, dict(r, trace=tr)))
-    # model conformance of TLC-generated schedules (lock-step): drift is reported, never a verdict
-    tl = [(s, r) for s, r in good if s["driver"] == "tlc"]
-    res["conformance"] = {"replayed": len(tl), "agree": sum(1 for s, r in tl if r["drift"] is None and r["skipped"] == 0),
-                          "drift": sum(1 for s, r in tl if r["drift"] is not None),
-                          "skipped_cmds": sum(1 for s, r in tl if r["skipped"] > 0)}
-    for s, r in tl:
-        if r["drift"] is not None and len(res["drift"]) < 5:
-            res["drift"].append({"drift": r["drift"], "cfg": s["cfg"], "cmds": s["cmds"][: r["drift"]["pos"] + 1]})
-    # code -> PoolImpl: follow the executed random / directed schedules in the model (drift is reported, never a verdict)
-    if have_l1:
-        t1 = time.time()
-        groups = {}
-        for s, r in good:
-            if r.get("xlog"):
-                k = json.dumps(s["cfg"], sort_keys=True)
-                groups.setdefault(k, (s["cfg"], [], []))
-                groups[k][1].append(r["xlog"])
-                groups[k][2].append(s)
-        gl = [(v[0], v[1]) for v in groups.values()]
-        fres, fstates = l1.follow(gl, wd, log)
-        flat = [(s, x) for v in groups.values() for s, x in zip(v[2], v[1])]
-        drifted = [(s, x, o) for (s, x), o in zip(flat, fres) if o["bad"] != 0]
-        res["followed"] = {"runs": len(fres), "agree": len(fres) - len(drifted), "drift": len(drifted), "configurations": len(gl),
-                           "commands": sum(len(x) for _, x in flat), "states": fstates,
-                           "drift_samples": [{"cfg": s["cfg"], "at": o["bad"], "cmds": x[max(0, o["bad"] - 5): max(o["bad"], 1)]}
-                                             for s, x, o in drifted[:2]]}
-        log("followed %d executed schedules (%d configurations, %d commands) in PoolImpl: %d agree, %d drift (%.1fs)" % (
-            len(fres), len(gl), res["followed"]["commands"], len(fres) - len(drifted), len(drifted), time.time() - t1))
-        for s, r in good:
-            r.pop("xlog", None)
-    # -- 4. judge --------------------------------------------------------------------------------------------
-    t1 = time.time()
-    batch = 4000
-    verdicts = []
-    states = trans = 0
-    for i in range(0, len(good), batch):
-        vs, st = common.judge([r["trace"] for _, r in good[i:i + batch]], wd, name="batch%d" % (i // batch))
-        verdicts += vs
-        states += st[0]
-        trans += st[1]
-    log("judged %d traces with the TLA+ monitor in %.1fs" % (len(good), time.time() - t1))
-    res["traces"] = len(good)
-    res["events"] = sum(len(r["trace"]) for _, r in good)
-    res["judge_states"], res["judge_transitions"] = states, trans
+    # -- 3+4. execute, follow, judge - in chunks, so that a thorough run does not hold every trace in memory ----------
     replay_dir = os.path.join(common.WORK, "replay")
     os.makedirs(replay_dir, exist_ok=True)
-    seen = set()
-    hit_traces = {}
-    for (s, r), v in zip(good, verdicts):
-        k = sched_key(s)
-        for hname in v["hit"]:
-            res["hits"][hname] = res["hits"].get(hname, 0) + 1
-            hit_traces.setdefault(hname, set()).add(k)
-        for x in v["viol"]:
-            sig = (x["c"], x["kf"])
-            entry = {"c": x["c"], "kf": x["kf"], "at": x["at"], "ent": x["ent"], "driver": s["driver"], "key": k}
-            if sig not in seen or len([y for y in res["viol"] if (y["c"], y["kf"]) == sig]) < 3:
-                # keep a replayable witness for the first few occurrences of each (clause, finding)
-                path = os.path.join(replay_dir, "%s-%s-%s.json" % (x["c"], x["kf"] or "new", k[:10]))
-                with open(path, "w") as f:
-                    json.dump({"kind": "pool", "cfg": s["cfg"], "cmds": s["cmds"], "clause": x["c"], "kf": x["kf"],
-                               "at": x["at"], "ent": x["ent"], "driver": s["driver"]}, f)
-                entry["replay"] = path
-                seen.add(sig)
-            res["viol"].append(entry)
+    hit_traces, agg = {}, {}
+    conf = {"replayed": 0, "agree": 0, "drift": 0, "skipped_cmds": 0}
+    fol = {"runs": 0, "agree": 0, "drift": 0, "configurations": 0, "commands": 0, "states": 0, "drift_samples": []}
+    states = trans = 0
+    t_exec = t_follow = t_judge = 0.0
+    nexec = 0
+    per = {}
+    chunk = 6000
+    for c0 in range(0, len(scheds), chunk):
+        part = scheds[c0:c0 + chunk]
+        t1 = time.time()
+        out = common.execute_all(part)
+        t_exec += time.time() - t1
+        nexec += len(part)
+        good = []
+        for s, r in zip(part, out):
+            res["drivers"][s["driver"]] = res["drivers"].get(s["driver"], 0) + 1
+            if not r["ok"]:
+                if len(res["harness_errors"]) < 5:
+                    res["harness_errors"].append({"sched": {"cfg": s["cfg"], "cmds": s["cmds"]}, "err": r["err"]})
+                continue
+            if s["driver"] == "tlc":        # model conformance of TLC-generated schedules (lock-step)
+                conf["replayed"] += 1
+                conf["agree"] += 1 if (r["drift"] is None and r["skipped"] == 0) else 0
+                conf["drift"] += 1 if r["drift"] is not None else 0
+                conf["skipped_cmds"] += 1 if r["skipped"] > 0 else 0
+                if r["drift"] is not None and len(res["drift"]) < 5:
+                    res["drift"].append({"drift": r["drift"], "cfg": s["cfg"], "cmds": s["cmds"][: r["drift"]["pos"] + 1]})
+            npools = len(s["cfg"]["pools"]) if "pools" in s["cfg"] else 1
+            if npools == 1:
+                good.append((s, r))
+            else:       # one trace per pool: each pool is judged on its own records (independence is part of C11)
+                for tr in common.split_pools(r["trace"], npools):
+                    good.append((s, dict(r, trace=tr, xlog=None)))
+        # code -> PoolImpl: follow the executed random / directed schedules in the model (drift is reported, never a verdict)
+        if have_l1:
+            t1 = time.time()
+            groups = {}
+            for s, r in good:
+                if r.get("xlog"):
+                    k = json.dumps(s["cfg"], sort_keys=True)
+                    groups.setdefault(k, (s["cfg"], [], []))
+                    groups[k][1].append(r["xlog"])
+                    groups[k][2].append(s)
+            if groups:
+                gl = [(v[0], v[1]) for v in groups.values()]
+                fres, fstates = l1.follow(gl, wd, log)
+                flat = [(s, x) for v in groups.values() for s, x in zip(v[2], v[1])]
+                drifted = [(s, x, o) for (s, x), o in zip(flat, fres) if o["bad"] != 0]
+                fol["runs"] += len(fres)
+                fol["agree"] += len(fres) - len(drifted)
+                fol["drift"] += len(drifted)
+                fol["configurations"] += len(gl)
+                fol["commands"] += sum(len(x) for _, x in flat)
+                fol["states"] += fstates
+                for s, x, o in drifted[:2]:
+                    if len(fol["drift_samples"]) < 2:
+                        fol["drift_samples"].append({"cfg": s["cfg"], "at": o["bad"], "cmds": x[max(0, o["bad"] - 5): max(o["bad"], 1)]})
+            for s, r in good:
+                r.pop("xlog", None)
+            t_follow += time.time() - t1
+        # judge
+        t1 = time.time()
+        verdicts, st = common.judge([r["trace"] for _, r in good], wd, name="batch%d" % (c0 // chunk))
+        t_judge += time.time() - t1
+        states += st[0]
+        trans += st[1]
+        res["traces"] += len(good)
+        res["events"] += sum(len(r["trace"]) for _, r in good)
+        for (s, r), v in zip(good, verdicts):
+            k = sched_key(s)
+            for hname in v["hit"]:
+                res["hits"][hname] = res["hits"].get(hname, 0) + 1
+                hit_traces.setdefault(hname, set()).add(k)
+            for x in v["viol"]:
+                sig = (x["c"], x["kf"])
+                e = agg.get(sig)
+                if e is None:
+                    e = agg[sig] = {"c": x["c"], "kf": x["kf"], "at": x["at"], "ent": x["ent"], "driver": s["driver"], "count": 0,
+                                    "witnesses": []}
+                e["count"] += 1
+                if len(e["witnesses"]) < 3:
+                    # keep a replayable witness for the first few occurrences of each (clause, finding)
+                    path = os.path.join(replay_dir, "%s-%s-%s.json" % (x["c"], x["kf"] or "new", k[:10]))
+                    with open(path, "w") as f:
+                        json.dump({"kind": "pool", "cfg": s["cfg"], "cmds": s["cmds"], "clause": x["c"], "kf": x["kf"],
+                                   "at": x["at"], "ent": x["ent"], "driver": s["driver"]}, f)
+                    e["witnesses"].append(path)
+                    e.setdefault("replay", path)
+        for s, r in good:
+            if per.get(s["driver"], 0) < 2:
+                per[s["driver"]] = per.get(s["driver"], 0) + 1
+                res["samples"].append({"driver": s["driver"], "cfg": s["cfg"], "cmds": s["cmds"][:40], "trace_len": len(r["trace"])})
+        del out, good, verdicts
+    log("executed %d schedules on the real pool in %.1fs" % (nexec, t_exec))
+    if have_l1:
+        log("followed %d executed schedules (%d configurations, %d commands) in PoolImpl: %d agree, %d drift (%.1fs)" % (
+            fol["runs"], fol["configurations"], fol["commands"], fol["agree"], fol["drift"], t_follow))
+        res["followed"] = fol
+    log("judged %d traces with the TLA+ monitor in %.1fs" % (res["traces"], t_judge))
+    res["conformance"] = conf
+    res["viol"] = list(agg.values())
+    res["judge_states"], res["judge_transitions"] = states, trans
     res["hit_traces"] = {h: len(v) for h, v in hit_traces.items()}
     prop_keys = {}
     for h, ks in hit_traces.items():
@@ -213,13 +238,6 @@ def run_pipeline(tier, seed, log=print):
         if h[:1] == "C" and "." in h:
             prop_keys.setdefault(h.split(".")[0], set()).update(ks)
     res["prop_traces"] = {p: len(v) for p, v in prop_keys.items()}
-    # samples: a few schedules of each driver, written out
-    per = {}
-    for s, r in good:
-        if per.get(s["driver"], 0) < 2:
-            per[s["driver"]] = per.get(s["driver"], 0) + 1
-            res["samples"].append({"driver": s["driver"], "cfg": s["cfg"], "cmds": s["cmds"][:40],
-                                   "trace_len": len(r["trace"])})
     res["wall_s"] = round(time.time() - t0, 1)
     return res
 
